@@ -95,7 +95,8 @@ class _Auxiliar(BaseModel):
             # already typed (a model is being validated again): nothing to cast, and a network must not be iterated
             return value
 
-        with suppress(ValidationError):
+        # ValueError: pydantic lets the errors of datetime.date (year 0) escape unwrapped
+        with suppress(ValidationError, ValueError):
             value = _Auxiliar(aux=value).aux
 
         if isinstance(value, list):
